@@ -37,7 +37,7 @@ import importlib
 from fractions import Fraction
 from .common import module, top_func, TranslationError, HEADER
 
-SUBMODULES = ['corefuncs_dhd']      # sub-translators whose generate() / OUTPUTS are merged into this one
+SUBMODULES = ['corefuncs_dhd', 'corefuncs_pscore']      # sub-translators whose generate() / OUTPUTS are merged into this one
 OUTPUTS = ['CoreFuncsGen.v']
 
 FUNCS = ['_contingency_matrix', '_adjusted_rand_index', '_mutual_info_score', '_entropy']
